@@ -151,7 +151,7 @@ Definition render_trap (amp rise flat fall delay s : Q) : Q :=
    arbitrary gradient the edge values first/last sit at the start and the end of the raster cell row *)
 Definition corner_list (raster : Q) (delay : Q) (ts wf : list Q) (first last : Q) : pwl :=
   if is_arb raster ts then
-    (delay, first) :: combine (map (fun x => delay + x) ts) wf ++ [(delay + (qlast ts + raster / 2), last)]
+    combine (map (fun x => delay + x) ([0] ++ ts ++ [qlast ts + raster / 2])) ([first] ++ wf ++ [last])
   else combine (map (fun x => delay + x) ts) wf.
 
 Definition render (raster : Q) (g : grad) (s : Q) : Q :=
